@@ -496,6 +496,7 @@ impl Scenario for Joins {
     }
     fn execute(&self, plan: &JoinPlan, ctx: &mut Ctx) -> Result<(), Violation> {
         let spec = &plan.spec;
+        decoy_unode(spec);
         let is_min = matches!(spec.kind, UKind::SmhF64 | UKind::SmhF32);
         let mut order = plan.items.clone();
         Rng::new(plan.order_seed).shuffle(&mut order);
